@@ -50,6 +50,9 @@ impl ValueChain {
     fn push_value_mut(&mut self, value: Value) -> &mut Value {
         // note: There is no need for keeping the old chain.
         // All those references are out of scope when add_mut is called.
+        // The old chain is dropped through `ValueChain::drop`, which is iterative:
+        // plain assignment would drop the nodes recursively and overflow the stack for long chains.
+        drop(core::mem::take(self));
         self.root = Node::new(value).into();
 
         &mut self.root.get_mut().unwrap().value
